@@ -469,10 +469,14 @@ def minimise(judge, viol, max_evals=160):
 # ---------------------------------------------------------------------------------------------
 # fidelity of the stubs: the same scenario through a real `python -m mistletoe` with real files
 
+# (extra environment, locale encoding, stdout encoding, interpreter flags, stdin)
 REAL_ENVS = [
-    ({}, 'utf-8', 'utf-8'),
-    ({'LC_ALL': 'C', 'LANG': 'C', 'PYTHONCOERCECLOCALE': '0', 'PYTHONUTF8': '0'}, 'ascii', 'ascii'),
-    ({'PYTHONIOENCODING': 'latin-1'}, 'utf-8', 'latin-1'),
+    ({}, 'utf-8', 'utf-8', [], 'devnull'),
+    ({'LC_ALL': 'C', 'LANG': 'C', 'PYTHONCOERCECLOCALE': '0', 'PYTHONUTF8': '0'}, 'ascii', 'ascii', [], 'devnull'),
+    ({'PYTHONIOENCODING': 'latin-1'}, 'utf-8', 'latin-1', [], 'devnull'),
+    ({'COLUMNS': '20', 'LINES': '5', 'TERM': 'dumb', 'NO_COLOR': '1'}, 'utf-8', 'utf-8', ['-O'], 'closed'),
+    ({'HOME': '/nonexistent', 'TZ': 'Pacific/Kiritimati', 'LANG': 'tr_TR.UTF-8'}, 'utf-8', 'utf-8', ['-X', 'utf8'], 'pipe'),
+    ({'PYTHONWARNINGS': 'ignore', 'PYTHONDONTWRITEBYTECODE': '1'}, 'utf-8', 'utf-8', ['-OO', '-S'], 'devnull'),
 ]
 
 
@@ -486,7 +490,7 @@ def real_runs(judge, seed, corp, n):
         for i in range(n):
             scn = scenario(seed, corp, 'real', i)
             scn['fault'] = None
-            envx, loc, outenc = REAL_ENVS[i % len(REAL_ENVS)]
+            envx, loc, outenc, pyflags, stdin_kind = REAL_ENVS[i % len(REAL_ENVS)]
             scn['knobs']['locale'], scn['knobs']['stdout_encoding'] = loc, outenc
             scn['knobs']['entry'] = '__main__'
             scn['knobs']['tty'] = False          # the real subprocess writes to a pipe
@@ -501,9 +505,15 @@ def real_runs(judge, seed, corp, n):
             env.update(envx)
             env['PYTHONPATH'] = core.REPO
             env['PYTHONDONTWRITEBYTECODE'] = '1'
-            dashes = ['--'] if any(nm.startswith('-') for nm in scn['names']) else []
-            argv = [sys.executable, '-m', 'mistletoe', '-r', CW.dotted(scn['R'])] + dashes + scn['names']
-            p = subprocess.Popen(argv, cwd=d, env=env, stdout=subprocess.PIPE, stderr=subprocess.PIPE)
+            scn['knobs']['omit_r'] = False
+            if '-S' in pyflags and scn['R'] == 'Pygments':
+                pyflags = [f for f in pyflags if f != '-S']         # without site-packages pygments cannot be imported
+            argv = [sys.executable] + pyflags + ['-m', 'mistletoe'] + CW.build_argv(scn['R'], scn['names'], scn['knobs'])
+            stdin = {'devnull': subprocess.DEVNULL, 'pipe': subprocess.PIPE, 'closed': None}[stdin_kind]
+            kw = {'close_fds': True}
+            if stdin_kind == 'closed':
+                kw['preexec_fn'] = lambda: os.close(0)
+            p = subprocess.Popen(argv, cwd=d, env=env, stdin=stdin, stdout=subprocess.PIPE, stderr=subprocess.PIPE, **kw)
             procs.append((scn, p))
             if len(procs) >= 16 or i == n - 1:
                 for scn2, p2 in procs:
